@@ -146,6 +146,17 @@ def s2(ck: Check) -> None:
         exp0 = logic.B(f"T:FIELD<{sd_p0}|{node_p0}|expanded>")
         for d in fills:
             pc0 = fm.pc(d)
+            v0 = d.ast.value
+            d0 = d
+            if isinstance(v0, ast.ListComp) and len(v0.generators) == 1 and not v0.generators[0].ifs and isinstance(v0.generators[0].iter, ast.Name):
+                # `children = succs if expanded else []; motifs = [.. for s in children]`: the list is empty where the children are
+                sdc = fm.single_def(v0.generators[0].iter.id, d)
+                if sdc and isinstance(sdc[1], ast.IfExp):
+                    d0, v0 = sdc[0], sdc[1]
+            if isinstance(v0, ast.IfExp) and (is_empty_list(v0.body) != is_empty_list(v0.orelse)):
+                # `[...] if node["expanded"] else []`
+                t0 = fm.translator(d0).f(v0.test)
+                pc0 = logic.And(pc0, fm.pc(d0), logic.Not(t0) if is_empty_list(v0.body) else t0)
             try:
                 ok0 = exp0[1] in logic.atoms(pc0) and logic.equivalent(pc0, exp0)
             except logic.TooBig:
@@ -504,6 +515,13 @@ def s3(ck: Check) -> None:
                 return None
 
             pc = fm.pc(e.cfgn, atomize=atomize)
+            cand_defs = [d for d in defs if d.kind == "stmt" and isinstance(d.ast, (ast.Assign, ast.AnnAssign)) and d.ast.value is not None
+                         and ("candidates" in text(d.ast.value)) and "symbolic" not in text(d.ast.value)]
+            if len(defs) > 1 and len(cand_defs) == 1 and isinstance(cand_defs[0].ast.value, ast.Name):
+                # one store after an if/else (`seeds = candidates` in one arm, the symbolic result in the other): the candidate
+                # list gets there under the conditions of its own arm
+                pc = logic.And(pc, fm.pc(cand_defs[0], atomize=atomize))
+                v = cand_defs[0].ast.value.id
             # `seeds = candidates; node[...] = seeds`: the conditions speak about the list under its first name
             sd_ = fm.single_def(v, e.cfgn)
             if sd_ and isinstance(sd_[1], ast.Name) and \
